@@ -132,6 +132,20 @@ CHECKS = {
         "Wrong-kind inputs the statement does not name may go either way; record/dynamic are pass-through types.",
         "DESIGN.md 4/C05",
     ),
+    "C06": (
+        "exploration",
+        "exhaustive short-string enumeration + mutation/payload fuzzing (Hypothesis) through four delivery channels, "
+        "oracle = reference grammar + exec-source AST allow-list + import monitor + tripwires",
+        "Every string up to length 2 (thorough: 3) over a 40-character hostile alphabet is tried as type name, field "
+        "name and field type through the constructor, a crafted descriptor frame, a JSON descriptor line and an Avro "
+        "schema doc; generated mutations of valid definitions, Python keywords, template-namespace identifiers, very "
+        "long names and code payloads follow. Definitions outside the reference grammar must be rejected, accepted "
+        "ones must yield a record with exactly the declared + reserved slots whose version/generated stamping works, "
+        "and every source text handed to exec must match an AST allow-list.",
+        "Quick tier samples 1/16 of the length-3 strings; the monitors shadow module attributes of flow.record.base "
+        "from the check process.",
+        "DESIGN.md 4/C06",
+    ),
 }
 
 NOT_APPLICABLE = {}
